@@ -24,3 +24,101 @@ proof fn lemma_prefix_push<T>(a: Seq<T>, b: Seq<T>, x: T)
         assert(a =~= b.subrange(0, a.len() as int));
     }
 }
+// ---- value side (C03 "number literals in every accepted radix and magnitude", C16 literal location) ----
+spec fn dig_val(c: char) -> int {
+    if is_dig(c) { c as int - '0' as int } else if 'a' <= c && c <= 'f' { c as int - 'a' as int + 10 } else if 'A' <= c && c <= 'F' { c as int - 'A' as int + 10 } else { 0 }
+}
+/// mathematical value of a digit string in a base
+spec fn ival(s: Seq<char>, base: int) -> int
+    decreases s.len(),
+{
+    if s.len() == 0 { 0 } else { ival(s.drop_last(), base) * base + dig_val(s.last()) }
+}
+/// the f64 obtained by folding the digits left to right, starting from 0.0 (what the fallback accumulator computes)
+spec fn fval(s: Seq<char>, base: f64) -> f64
+    decreases s.len(),
+{
+    if s.len() == 0 { 0f64 } else { f_mul_add(fval(s.drop_last(), base), base, dig_val(s.last())) }
+}
+spec fn all_dig(s: Seq<char>) -> bool { forall|i: int| 0 <= i < s.len() ==> is_dig(#[trigger] s[i]) }
+spec fn all_oct(s: Seq<char>) -> bool { forall|i: int| 0 <= i < s.len() ==> is_oct(#[trigger] s[i]) }
+spec fn all_hex(s: Seq<char>) -> bool { forall|i: int| 0 <= i < s.len() ==> is_hex(#[trigger] s[i]) }
+/// the integer accumulator: Some(value) while the value fits i64, None from the first overflow on
+spec fn acc_of(s: Seq<char>, base: int) -> Option<i64> {
+    if ival(s, base) <= i64::MAX { Some(ival(s, base) as i64) } else { None }
+}
+spec fn lit_is(e: Expression, iv: Option<i64>, fv: f64) -> bool {
+    match iv {
+        Some(v) => (e matches Expression::LitInt { value, .. } && value == v),
+        None => (e matches Expression::LitFloat { value, .. } && value == fv),
+    }
+}
+/// THE value contract: which literal the text `t` (the characters the scanner consumed) denotes
+spec fn num_lit(e: Expression, t: Seq<char>) -> bool {
+    if t.len() >= 2 && t[0] == '0' && is_oct(t[1]) {
+        all_oct(t.skip(1)) && lit_is(e, acc_of(t.skip(1), 8), fval(t.skip(1), 8f64))
+    } else if t.len() >= 2 && t[0] == '0' && t[1] == 'x' {
+        t.len() >= 3 && all_hex(t.skip(2)) && lit_is(e, acc_of(t.skip(2), 16), fval(t.skip(2), 16f64))
+    } else if all_dig(t) && ival(t, 10) <= i64::MAX {
+        t.len() >= 1 && (e matches Expression::LitInt { value, .. } && value == ival(t, 10))
+    } else {
+        (e matches Expression::LitFloat { value, .. } && f64_of_text(t) == Some(value))
+    }
+}
+spec fn lit_loc(e: Expression) -> Range<Position> {
+    match e {
+        Expression::LitInt { location, .. } => location,
+        Expression::LitFloat { location, .. } => location,
+        _ => arbitrary(),
+    }
+}
+proof fn lemma_ival_nonneg(s: Seq<char>, base: int)
+    requires base > 0,
+    ensures ival(s, base) >= 0,
+    decreases s.len(),
+{
+    if s.len() > 0 { lemma_ival_nonneg(s.drop_last(), base); assert(ival(s.drop_last(), base) * base >= 0) by (nonlinear_arith) requires ival(s.drop_last(), base) >= 0, base > 0; }
+}
+/// one more digit: the value, the float fold and the "all digits" predicate extend as expected
+proof fn lemma_push_digit(s: Seq<char>, c: char, base: int, fb: f64)
+    requires base > 0,
+    ensures
+        ival(s.push(c), base) == ival(s, base) * base + dig_val(c),
+        fval(s.push(c), fb) == f_mul_add(fval(s, fb), fb, dig_val(c)),
+        ival(s.push(c), base) >= ival(s, base) || ival(s, base) < 0,
+{
+    assert(s.push(c).drop_last() =~= s);
+    assert(s.push(c).last() == c);
+    lemma_ival_nonneg(s, base);
+    assert(ival(s, base) * base >= ival(s, base)) by (nonlinear_arith) requires ival(s, base) >= 0, base >= 1;
+}
+/// the cursor moved from i to j while the scanner's text started at a
+proof fn lemma_move(src: Seq<char>, a: int, i: int, j: int, l0: int, c0: int)
+    requires 0 <= a <= i <= j <= src.len(),
+    ensures
+        src.subrange(a, j) =~= src.subrange(a, i) + src.subrange(i, j),
+        adv_line(l0, src.subrange(a, j)) == adv_line(adv_line(l0, src.subrange(a, i)), src.subrange(i, j)),
+        adv_col(c0, src.subrange(a, j)) == adv_col(adv_col(c0, src.subrange(a, i)), src.subrange(i, j)),
+        j == i + 1 ==> src.subrange(a, j) =~= src.subrange(a, i).push(src[i]),
+        i == j ==> src.subrange(a, j) =~= src.subrange(a, i),
+{
+    lemma_adv_split(l0, c0, src.subrange(a, i), src.subrange(i, j));
+}
+proof fn lemma_not_all_dig(src: Seq<char>, a: int, k: int, j: int)
+    requires 0 <= a <= k < j <= src.len(), !is_dig(src[k]),
+    ensures !all_dig(src.subrange(a, j)),
+{
+    assert(src.subrange(a, j)[k - a] == src[k]);
+}
+proof fn lemma_all_push(s: Seq<char>, c: char)
+    ensures
+        all_dig(s.push(c)) == (all_dig(s) && is_dig(c)),
+        all_oct(s.push(c)) == (all_oct(s) && is_oct(c)),
+        all_hex(s.push(c)) == (all_hex(s) && is_hex(c)),
+{
+    assert(s.push(c)[s.len() as int] == c);
+    assert forall|i: int| 0 <= i < s.len() implies s.push(c)[i] == s[i] by {}
+    if all_dig(s.push(c)) { assert forall|i: int| 0 <= i < s.len() implies is_dig(#[trigger] s[i]) by { assert(s.push(c)[i] == s[i]); } }
+    if all_oct(s.push(c)) { assert forall|i: int| 0 <= i < s.len() implies is_oct(#[trigger] s[i]) by { assert(s.push(c)[i] == s[i]); } }
+    if all_hex(s.push(c)) { assert forall|i: int| 0 <= i < s.len() implies is_hex(#[trigger] s[i]) by { assert(s.push(c)[i] == s[i]); } }
+}
